@@ -36,6 +36,8 @@
 #include "torrent/exceptions.h"
 #include "torrent/peer/connection_list.h"
 #include "torrent/peer/peer_info.h"
+#include <algorithm>
+#include <arpa/inet.h>
 #include "torrent/peer/peer.h"
 #include "torrent/system/poll.h"
 #include "torrent/torrent.h"
@@ -380,6 +382,125 @@ static std::string run_case(Session& S, const std::string& line) {
   return out;
 }
 
+// ---- unit-level PEX rounds (case "U | ops"): DownloadMain::do_peer_exchange with many fake connections,
+// for the > 200 listed peers branch that 6 scripted peers cannot reach.
+//   A<lo>-<hi>:<base>  connect fake peers lo..hi (peer k: address 10.0.(k%256).(k/256), listen port base+k; base 0 = no port)
+//   R<lo>-<hi>         disconnect them (ConnectionList order: swap with last)
+//   x                  one do_peer_exchange round
+// Output per x: list=<k:port,...> ini=<added>/<dropped> del=<added>/<dropped>   ("-" = empty DataBuffer)
+struct FakePeer : public torrent::PeerConnectionBase {
+  void initialize_custom() override {}
+  void update_interested() override {}
+  bool receive_keepalive() override { return true; }
+  void event_read() override {}
+  void event_write() override {}
+};
+
+static std::string show_entries(const char* p, size_t n) {
+  std::string o;
+  for (size_t k = 0; k + 6 <= n; k += 6) {
+    const unsigned char* e = (const unsigned char*)p + k;
+    unsigned idx = e[3] * 256u + e[2];
+    unsigned port = e[4] * 256u + e[5];
+    if (!o.empty()) o += ",";
+    o += std::to_string(idx) + ":" + std::to_string(port);
+  }
+  return o.empty() ? "." : o;
+}
+
+static std::string show_pexbuf(const torrent::DataBuffer& b) {
+  if (b.empty()) return "-";
+  std::string s(b.data(), b.length());
+  // d5:added<n>:<bytes>7:dropped<m>:<bytes>e
+  size_t p = 8, c = s.find(':', p);
+  size_t n = std::stoul(s.substr(p, c - p));
+  std::string added = s.substr(c + 1, n);
+  p = c + 1 + n + 9;
+  c = s.find(':', p);
+  size_t m = std::stoul(s.substr(p, c - p));
+  std::string dropped = s.substr(c + 1, m);
+  return show_entries(added.data(), added.size()) + "/" + show_entries(dropped.data(), dropped.size());
+}
+
+static std::string run_unit_case(Session& S, const std::string& line) {
+  g_case_no++;
+  auto ops = split_ws(line.substr(line.find('|') + 1));
+  std::string name = "c20u" + std::to_string(g_case_no);
+  std::string info = "d6:lengthi40000e4:name" + std::to_string(name.size()) + ":" + name + "12:piece lengthi16384e6:pieces60:" + std::string(60, 'u') + "e";
+  torrent::Download dl = S.add_raw("d4:info" + info + "e");
+  std::string root = S.scratch() + "/u" + std::to_string(g_case_no);
+  fs::create_directories(root);
+  dl.file_list()->set_root_dir(root);
+  dl.open(0);
+  dl.hash_check(false);
+  if (!S.settle([dl]() { return dl.is_hash_checked(); }, 30000)) return "ERR:hashcheck";
+  dl.start(0);
+  S.step();
+  auto* main = dl.ptr()->main();
+  auto* vec = (std::vector<torrent::Peer*>*)dl.connection_list();
+  std::map<unsigned, FakePeer*> fakes;
+  static torrent::ProtocolExtension default_ext = torrent::ProtocolExtension::make_default();
+  std::string out;
+  try {
+    for (auto& op : ops) {
+      if (op[0] == 'A' || op[0] == 'R') {
+        size_t dash = op.find('-'), col = op.find(':');
+        unsigned lo = std::stoul(op.substr(1, dash - 1));
+        unsigned hi = std::stoul(op.substr(dash + 1, col == std::string::npos ? std::string::npos : col - dash - 1));
+        unsigned base = col == std::string::npos ? 0 : std::stoul(op.substr(col + 1));
+        for (unsigned k = lo; k <= hi && k < 4096; k++) {
+          if (op[0] == 'A') {
+            if (fakes.count(k)) continue;
+            auto* p = new FakePeer;
+            sockaddr_in sin{};
+            sin.sin_family = AF_INET;
+            sin.sin_port = htons(50000);
+            std::string ip = "10.0." + std::to_string(k % 256) + "." + std::to_string(k / 256);
+            inet_pton(AF_INET, ip.c_str(), &sin.sin_addr);
+            p->m_peerInfo = new torrent::PeerInfo((sockaddr*)&sin);
+            p->m_peerInfo->set_listen_port(base == 0 ? 0 : (uint16_t)(base + k));
+            p->m_download = main;
+            p->m_extensions = &default_ext;
+            vec->push_back(p);
+            fakes[k] = p;
+          } else {
+            auto it = fakes.find(k);
+            if (it == fakes.end()) continue;
+            auto pos = std::find(vec->begin(), vec->end(), static_cast<torrent::Peer*>(it->second));
+            if (pos != vec->end()) { *pos = vec->back(); vec->pop_back(); }
+            fakes.erase(it);
+          }
+        }
+      } else if (op == "x") {
+        main->do_peer_exchange();
+        std::string list;
+        for (auto& a : main->m_ut_pex_list) list += std::string((const char*)&a, 6);
+        if (!out.empty()) out += " ; ";
+        out += "x => list=" + show_entries(list.data(), list.size()) + " ini=" + show_pexbuf(main->m_ut_pex_initial) + " del=" + show_pexbuf(main->m_ut_pex_delta);
+      } else {
+        return "BADCASE";
+      }
+    }
+  } catch (torrent::internal_error& e) {
+    if (!out.empty()) out += " ; ";
+    out += "ERR:internal";
+  }
+  // the fake connections never reach the library's own teardown
+  for (auto& f : fakes) {
+    auto pos = std::find(vec->begin(), vec->end(), static_cast<torrent::Peer*>(f.second));
+    if (pos != vec->end()) { *pos = vec->back(); vec->pop_back(); }
+  }
+  fakes.clear();   // (objects intentionally leaked: their destructor expects a fully initialised connection)
+  dl.stop(torrent::Download::stop_skip_tracker);
+  dl.close(0);
+  S.step();
+  torrent::download_remove(dl);
+  S.step();
+  std::error_code ec;
+  fs::remove_all(root, ec);
+  return out;
+}
+
 int main() {
   std_setup();
   Session S;
@@ -388,7 +509,7 @@ int main() {
     if (line.empty()) { std::cout << "\n"; continue; }
     std::string r;
     try {
-      r = run_case(S, line);
+      r = line.compare(0, 2, "U ") == 0 ? run_unit_case(S, line) : run_case(S, line);
     } catch (torrent::internal_error& e) {
       printf("ERR:internal %s\n", e.what());
       fflush(stdout);
